@@ -44,6 +44,11 @@ ASSUMPTIONS = [
     'the geometry that copy_layers_from took its layers from belongs to the state: after every later operation its '
     'own invariant is evaluated and its canonical form must be what it was (an operation on one geometry must not '
     'change another); translating that source must leave the copying geometry unchanged',
+    'arguments belong to the caller: every call made with a plain-data collection (lists of names, shift vectors, '
+    'the fit_surface data array) is compared with a deep copy of its arguments taken before; and the calls that take '
+    'a collection are repeated, with the very same argument objects, on a deep copy of the geometry taken before '
+    'the call (the list of names reused on the re-read file / on a model with the same names): the copy must end in '
+    'the same canonical state and the first geometry must not change (WAVE3 rule 2: judged by the effect)',
     'after write+read the numbers of nodes, columns, connections, layers and wells must be those written (objects '
     'whose names collide in the file are otherwise dropped silently), besides the invariant on the object read',
     'excluded (DESIGN 4.2): mesh-validity clauses after delete_column / delete_node / add_node / add_column / '
